@@ -46,6 +46,20 @@ CHECKS = {
         "runtime monitoring: reference-model oracle over entity.permission, exhaustive cell enumeration",
         "3/C04",
     ),
+    "C06": (
+        "exploration",
+        "Runtime monitor on the real correlate(): all DAG shapes over <=3 provider modules + a consumer (exhaustive) with seeded "
+        "decoration (default access, explicit public re-export lists, per-entity access, USE forms plain/only/rename/only+rename/"
+        "non_intrinsic/two USEs in either order, USE at module level, in the probing procedure or in a nested internal procedure); "
+        "the consumer probes every candidate name (type(n), procedure(n) pointer, namelist member, call, function reference); the "
+        "object found in each probe slot (recorder on _find_chain_item for calls) is compared with an independent implementation of "
+        "F2008 11.2.2; file enumeration order is injected by wrapping find_all_files (sampled permutations, all in thorough).",
+        "Trusts imports()/exports() in checks/c06.py as the standard's rule; unique entity names; one known finding (several USE "
+        "statements of one module applied independently) is suppressed only where an alternative per-statement model predicts "
+        "exactly the observed object.",
+        "runtime monitoring: reference-model oracle over probe reference slots + schedule injection (file order)",
+        "3/C06",
+    ),
     "C08": (
         "exploration",
         "Runtime monitor on the real parser + correlate(): executable parts are generated from a statement/expression grammar that "
